@@ -169,7 +169,7 @@ class EffectDomain(DefaultDomain):
 
     def augassign(self, interp, stmt, value, st, fr):
         """x op= v on a local or self attribute whose current value is known: x = x op v"""
-        key = interp._key_of(stmt.target, fr)
+        key = interp._key_of(stmt.target, fr, st)
         if key is None or not st.has(key):
             return None
         new = self.binop(stmt, st.get(key), value)
@@ -287,6 +287,13 @@ class EffectDomain(DefaultDomain):
                     return self._abs(pb[pi])
                 except IndexError:
                     return None
+        if isinstance(base, tuple) and base[:1] == ("tuple",) and isinstance(idx, tuple) and idx[:1] == ("slice",):
+            parts = [self._py(x) for x in idx[1:]]
+            if all(ok_ for ok_, _ in parts):
+                try:
+                    return ("tuple",) + tuple(base[1:][slice(*[x for _, x in parts])])   # a slice of an exact sequence
+                except (TypeError, ValueError):
+                    return None
         if isinstance(base, tuple) and base[:1] == ("table",):
             ok, k = self._py(idx)
             ent = dict(base[1])
@@ -336,7 +343,7 @@ class EffectDomain(DefaultDomain):
         """del d[k] on a local / self attribute holding an exact dict"""
         if not isinstance(target, ast.Subscript):
             return None
-        key = interp._key_of(target.value, fr)
+        key = interp._key_of(target.value, fr, st)
         cur = st.get(key, None) if key is not None else None
         if not (isinstance(cur, tuple) and cur[:1] == ("kwdict",)):
             return None
@@ -350,7 +357,7 @@ class EffectDomain(DefaultDomain):
 
     def store_subscript(self, target, value, st, fr, interp):
         # kw["name"] = value on a local holding a keyword dict
-        key = interp._key_of(target.value, fr)
+        key = interp._key_of(target.value, fr, st)
         cur = st.get(key, None) if key is not None else None
         if isinstance(cur, tuple) and cur[:1] == ("kwdict",):
             for r in interp.eval(target.slice, st, fr):
@@ -384,7 +391,7 @@ class EffectDomain(DefaultDomain):
         f = call.func
         if not (isinstance(f, ast.Attribute) and isinstance(f.value, (ast.Name, ast.Attribute))):
             return None
-        key = interp._key_of(f.value, fr)
+        key = interp._key_of(f.value, fr, st)
         cur = st.get(key, None) if key is not None else None
         if not (isinstance(cur, tuple) and cur[:1] == ("kwdict",)) or f.attr not in ("get", "pop", "popitem", "clear", "setdefault", "items", "keys", "values", "copy", "update"):
             return None
@@ -490,6 +497,10 @@ class EffectDomain(DefaultDomain):
         return None
 
     def load_attr(self, chain, st, fr):
+        if len(chain) >= 2 and all(isinstance(c, str) for c in chain):
+            w = self._wobj_of(chain[:-1], st, fr)
+            if w is not None and st.has(f"obj.{w[1]}.{chain[-1]}"):
+                return st.get(f"obj.{w[1]}.{chain[-1]}")   # mutable attribute of a wrapped object, kept in the state
         if chain and chain[0] == "<yield>" and getattr(self, "collect_yields", True):
             # a generator's yields are collected in order (per frame depth); the yield expression evaluates to None
             key = f"gen.{fr.depth}"
@@ -533,6 +544,28 @@ class EffectDomain(DefaultDomain):
                     return a if a is not None else ("bound", v[1], chain[-1])
         return None
 
+    NON_EXCEPTION = ("KeyboardInterrupt", "SystemExit", "GeneratorExit")
+
+    def _exc_isinstance(self, exc_name, type_names, fr):
+        """Is an exception of the class called ``exc_name`` an instance of one of ``type_names``?  None = not decidable."""
+        if exc_name in type_names or "BaseException" in type_names:
+            return True
+        if "Exception" in type_names and exc_name not in self.NON_EXCEPTION:
+            return True
+        mod = getattr(fr.func, "_module", None)
+        ci = self.classes.lookup(mod, exc_name) if mod is not None else None
+        if ci is None:
+            found = self.classes.find(exc_name) if hasattr(self.classes, "find") else None
+            ci = found if found is not None and not isinstance(found, list) else (found[0] if found else None)
+        if ci is not None:
+            names = {c.name for c in self.classes.mro(ci)}
+            for c in self.classes.mro(ci):
+                for b in c.base_exprs:
+                    names.add((dotted(b) or "").split(".")[-1])
+            return bool(names & set(type_names))
+        # an exception class this model invented (UserError ...): unrelated to every class named in the code
+        return False
+
     @staticmethod
     def _module_constant(name, fr):
         """A module-level name bound exactly once to a literal or to a fresh `object()` sentinel."""
@@ -559,6 +592,47 @@ class EffectDomain(DefaultDomain):
             return ("sym", f"<module sentinel {name}>")
         if isinstance(v, ast.Constant) and not isinstance(v.value, (float, complex)) and v.value is not Ellipsis:
             return EffectDomain._abs(v.value)
+        return None
+
+    def _wobj_of(self, chain, st, fr):
+        """The wrapped object an attribute chain of plain names denotes (through the environment and locals), or None."""
+        if not chain or not all(isinstance(c, str) for c in chain):
+            return None
+        d = ".".join(chain)
+        v = self.attrs.get(d)
+        if v is None and st.has(fr.local(chain[0])):
+            v = st.get(fr.local(chain[0]))
+            rest = chain[1:]
+        elif v is None:
+            # the longest prefix the environment binds
+            v, rest = None, None
+            for i in range(len(chain) - 1, 0, -1):
+                got = self.attrs.get(".".join(chain[:i]))
+                if got is not None:
+                    v, rest = got, chain[i:]
+                    break
+            if v is None:
+                return None
+        else:
+            rest = []
+        for name_ in rest:
+            if not (isinstance(v, tuple) and v[:1] == ("wobj",)):
+                return None
+            nxt = st.get(f"obj.{v[1]}.{name_}", None) if st.has(f"obj.{v[1]}.{name_}") else self.attrs.get(f"{v[1]}.{name_}")
+            v = nxt
+        return v if isinstance(v, tuple) and v[:1] == ("wobj",) else None
+
+    def key_of(self, interp, e, st, fr):
+        """State key of `<wrapped object>.attr` when that object keeps the attribute in the abstract state (obj.<id>.<attr>),
+        whatever alias the object is reached through."""
+        if not isinstance(e, ast.Attribute):
+            return None
+        ch = attr_chain(e)
+        if not ch or len(ch) < 2:
+            return None
+        w = self._wobj_of(ch[:-1], st, fr)
+        if w is not None and st.has(f"obj.{w[1]}.{ch[-1]}"):
+            return f"obj.{w[1]}.{ch[-1]}"
         return None
 
     def with_enter(self, interp, item, value, st, fr):
@@ -780,7 +854,7 @@ class EffectDomain(DefaultDomain):
             return [r if r.kind == "exc" else val(("set", ("copy", r.value)), r.state) for r in interp.eval(call.args[0], st, fr)]
         f_ = call.func
         if isinstance(f_, ast.Attribute) and isinstance(f_.value, (ast.Name, ast.Attribute)) and f_.attr in ("update", "difference_update", "add", "discard", "intersection_update", "copy", "union", "difference") and len(call.args) <= 1:
-            key = interp._key_of(f_.value, fr)   # a local, or an attribute of self kept in the state
+            key = interp._key_of(f_.value, fr, st)   # a local, or an attribute of self kept in the state
             cur = st.get(key, None) if key is not None else None
             if isinstance(cur, tuple) and cur[:1] == ("set",):
                 out = []
@@ -919,6 +993,24 @@ class EffectDomain(DefaultDomain):
             if known and out:
                 return out
         if d == "isinstance" and len(call.args) == 2 and not call.keywords:
+            # an abstract exception ("exc", ClassName): decided by name against exception classes named in the test
+            tnames = [(dotted(t) or "").split(".")[-1] for t in (call.args[1].elts if isinstance(call.args[1], ast.Tuple) else [call.args[1]])]
+            if all(tnames):
+                out = []
+                known = True
+                for r in interp.eval(call.args[0], st, fr):
+                    if r.kind == "exc":
+                        out.append(r)
+                    elif isinstance(r.value, tuple) and len(r.value) >= 2 and r.value[0] == "exc" and isinstance(r.value[1], str):
+                        verdict = self._exc_isinstance(r.value[1], tnames, fr)
+                        if verdict is None:
+                            known = False
+                        else:
+                            out.append(val(TRUE if verdict else FALSE, r.state))
+                    else:
+                        known = False
+                if known and out:
+                    return out
             types_ = {"str": str, "bytes": bytes, "int": int, "bool": bool, "float": float, "tuple": tuple, "list": tuple, "dict": dict}
             names_ = [dotted(t) for t in (call.args[1].elts if isinstance(call.args[1], ast.Tuple) else [call.args[1]])]
             if all(n_ in types_ for n_ in names_):
@@ -992,7 +1084,7 @@ class EffectDomain(DefaultDomain):
                 return out
         f_sort = call.func
         if isinstance(f_sort, ast.Attribute) and f_sort.attr == "sort" and not call.args and not call.keywords and isinstance(f_sort.value, (ast.Name, ast.Attribute)):
-            key = interp._key_of(f_sort.value, fr)
+            key = interp._key_of(f_sort.value, fr, st)
             cur = st.get(key, None) if key is not None else None
             if isinstance(cur, tuple) and cur[:1] == ("tuple",):
                 got = self._sort_elements(cur[1:])
@@ -1059,7 +1151,10 @@ class EffectDomain(DefaultDomain):
             # <expression with calls>.m(...): the receiver is evaluated (once, for its effects too), then the method is called on it
             out = []
             for r in interp.eval(call.func.value, st, fr):
-                if r.kind == "exc":
+                special = self.call_on_value(interp, r.value, call, r.state, fr) if r.kind == "val" else None
+                if special is not None:
+                    out.extend(special)
+                elif r.kind == "exc":
                     out.append(r)
                 elif isinstance(r.value, tuple) and r.value[:1] in (("wobj",), ("new",)):
                     out.extend(self._call_bound(interp, ("bound", r.value[1] if r.value[0] == "wobj" else r.value, call.func.attr), call, r.state, fr))
@@ -1122,6 +1217,10 @@ class EffectDomain(DefaultDomain):
             out.append(r if r.kind == "exc" else val(TOP, r.state))
         return out
 
+    def call_on_value(self, interp, receiver, call, st, fr):
+        """<expression with calls>.m(...) whose receiver evaluated to ``receiver``: subclasses with richer objects answer here."""
+        return None
+
     def match(self, handler_type, excvalue, st):
         if handler_type is None:
             return "yes"
@@ -1170,6 +1269,7 @@ def exc_info_of(e):
 
 
 def run(ctx, dom, func, receiver, argvals=None, state=None, depth=5):
+    dom.root_class = receiver   # the class of the analysed object (`self` of the entry function)
     it = Interp(dom, max_depth=depth)
     res = it.analyze(func, argvals or {}, state if state is not None else State(), receiver=receiver, name=getattr(func, "name", "?"))
     ctx.stats["states"] += it.steps
